@@ -151,6 +151,9 @@ def run_case(case, rep, record=True):
         if record:
             rep.count("custom-bounds" if custom else "default-bounds")
         check_roundtrip(h2, rep, "initial")
+        if case.get("foreign"):
+            import nasim
+            foreign = sources.make_env(nasim.load_scenario(sources.shipped_path(case["foreign"])))
         o1, _ = h.env.reset()
         o2, _ = h2.env.reset()
         compare_1d_2d(h, o1, o2, "reset")
@@ -190,7 +193,8 @@ def run_case(case, rep, record=True):
             h2.mst = pred.state
             if record:
                 rep.count("steps")
-        check_roundtrip(h2, rep, "after history")
+        if not case.get("foreign"):
+            check_roundtrip(h2, rep, "after history")
         if record and len(rep.samples) < rep.max_samples:
             rep.sample(dict(source=case["source"]["kind"], bounds=spec.bounds, os=spec.os, services=spec.services,
                             processes=spec.processes, hosts=len(spec.addrs), width=h.layout.width, steps=nops))
